@@ -70,6 +70,7 @@ class Ctx(object):
     self.mon_serials = {}   # id(monitor thread) -> serial
     self.mon_keep = []      # (keeps the thread objects alive so that ids are not reused)
     self.mon_count = 0
+    self.mon_taken = {}     # monitor serial -> samples returned so far
     self.dut_percent = False
 
   def ev(self, kind, *args):
@@ -108,6 +109,10 @@ def make_monitor(ctx, name):
       serial = ctx.mon_serials[id(me)] = ctx.mon_count
       ctx.mon_keep.append(me)
     ctx.ev('monitor_sample', name, serial)
+    if ctx.on_update is not None:
+      # the samples this thread took before this one have been assigned (and must have been notified)
+      ctx.on_update('mon', name, 'mon_' + name, ctx.mon_taken.get(serial, 0))
+    ctx.mon_taken[serial] = ctx.mon_taken.get(serial, 0) + 1
     return serial
 
   monitor.__name__ = 'monitor_' + name
@@ -132,6 +137,8 @@ def run_body(ctx, name, test, plugs):
     if ctx.on_update is not None:
       ctx.on_update('phase', name, None, None)
     for mname, val in beh.get('meas', []):
+      if ctx.on_update is not None:
+        ctx.sim.hot('measurement')   # a pre-emption inside the assignment / notification path
       test.measurements[mname] = val
       if ctx.on_update is not None:
         ctx.on_update('meas', name, mname, val)
